@@ -1,10 +1,13 @@
 #!/bin/bash
 # usage: seedtry.sh <seed id under /verif/seeded> CNN...   (uses /tmp/akv if present, else bin/akverif)
+# works on a scratch worktree (/tmp/trywt), never on /repo itself, so that checks running on /repo are not disturbed
 export GOFLAGS=-mod=mod GOPROXY=off GOSUMDB=off GOTOOLCHAIN=local; unset GOWORK
 seed=$1; shift
 bin=/tmp/akv; [ -x $bin ] || bin=/verif/bin/akverif
-git -C /repo apply /verif/seeded/$seed/patch.diff || exit 3
+wt=/tmp/trywt; [ -d $wt ] || git -C /repo worktree add -q --detach $wt HEAD || exit 3
+git -C $wt checkout -q -- . ; git -C $wt apply /verif/seeded/$seed/patch.diff || exit 3
+mkdir -p /tmp/akvhome/evidence; cp /verif/known_findings.json /tmp/akvhome/
 for c in "$@"; do
-  AKVERIF_HOME=/tmp/akvhome $bin check $c 2>&1 | grep -v "^  ok" | tail -${TAILN:-6}
+  AKVERIF_REPO=$wt AKVERIF_HOME=/tmp/akvhome $bin check $c quick 2>&1 | grep -v "^  ok" | tail -${TAILN:-6}
 done
-git -C /repo checkout -- .
+git -C $wt checkout -q -- .
